@@ -808,6 +808,8 @@ def externals(interp: Any, name: str) -> Optional[ModuleVal]:
             for n in ("Optional", "Tuple", "Dict", "List", "Callable", "Union", "Sequence", "Iterable", "Any", "Type", "Set", "TypeGuard", "Iterator", "OrderedDict"):
                 ents[n] = SubscriptableTok(n)
             ents["no_type_check"] = B("no_type_check", lambda it, a, k: a[0])
+        if name == "collections":
+            ents["OrderedDict"] = B("OrderedDict", lambda it, a, k: dict(*a, **k))
         if name == "logging":
             ents["getLogger"] = B("getLogger", lambda it, a, k: Opaque(z3.Const("logger", V), "logger"))
         hook = getattr(interp, "external_hook", None)
